@@ -1065,9 +1065,11 @@ def run_pool(kind, cases, procs=8):
         os.environ["XLA_FLAGS"] = (flags + " --xla_cpu_multi_thread_eigen=false intra_op_parallelism_threads=1").strip()
     os.environ.setdefault("OMP_NUM_THREADS", "1")
     os.environ.setdefault("OPENBLAS_NUM_THREADS", "1")
-    ctx = mp.get_context("spawn")
-    with ctx.Pool(procs, initializer=worker_init) as pool:
-        return pool.map(_w_incr if kind == "incr" else _w_stateful, cases, chunksize=2)
+    from . import core
+    res = core.run_pool(_w_incr if kind == "incr" else _w_stateful, cases, procs=procs, initializer=worker_init, tasks_per_child=40)
+    if any(r is None for r in res):
+        raise RuntimeError("a worker process died three times on the same case")
+    return res
 
 
 def genjax_file():
